@@ -89,6 +89,9 @@ type Case struct {
 	ID      int        `json:"id"`
 	Class   string     `json:"class"`
 	Enabled bool       `json:"enabled"`
+	// observed code variant: true when the real isReqSatisfiedByUserSig accepts a requirement without
+	// bounds against a dated signature (fixes/F21.diff applied); probed on every run, never generated
+	Fx bool `json:"fx"`
 	WKeys   []string   `json:"wkeys"`
 	PKeys   [][]string `json:"pkeys"`
 	Hist    []Op       `json:"hist"`
@@ -507,7 +510,19 @@ func runOrder(c *Case, order []int, l *slog.Logger) (ro RunObs) {
 	return ro
 }
 
+// probeVariant asks the real code which variant it is (see Case.Fx)
+func probeVariant(l *slog.Logger) bool {
+	ci := appprotect.NewConfiguration(l)
+	sig := Op{K: 2, Ns: "probe", Name: "s", UID: "probe-1", TS: tpool[0], WF: true, HasTag: true, Tag: "probe", Rev: TF{K: 2, T: tpool[1]}}
+	pol := Op{K: 0, Ns: "probe", Name: "p", UID: "probe-2", TS: tpool[0], WF: true, ReqsKind: 2, Reqs: []Req{{HasTag: true, Tag: "probe"}}}
+	ci.AddOrUpdateUserSig(buildUnstructured(&sig))
+	ci.AddOrUpdatePolicy(buildUnstructured(&pol))
+	_, err := ci.GetAppResource("APPolicy", "probe/p")
+	return err == nil
+}
+
 func runCase(c *Case, l *slog.Logger) {
+	c.Fx = probeVariant(l)
 	for i := range c.Hist {
 		if !c.Hist[i].Del {
 			c.Hist[i].Valid = oracle(&c.Hist[i], l)
